@@ -24,7 +24,7 @@ from ..gen import depgraphs as G
 
 PID = "C25"
 
-MANIFEST_PENDING = {
+MANIFEST = {
     "category": "proof",
     "technique": "Coq proof over a model of sort_filelist and the path mapping + correspondence through the real CLI and Metadata::paths",
     "text": "Theorems (all inputs): the filelist has no duplicates and lists exactly the files of `paths` holding a candidate symbol; "
@@ -40,6 +40,7 @@ MANIFEST_PENDING = {
 }
 
 KNOWN_COLLISION = "dst-collision-two-source-roots"
+N_GENERATED = {"quick": 40, "thorough": 600}
 
 
 # ------------------------------------------------------------------------------------ running the tools
@@ -64,7 +65,7 @@ def run_cli(veryl, case, d):
     if case.get("out_dir"):
         cmd += ["--out-dir", os.path.join(d, case["out_dir"])]
     try:
-        p = subprocess.run(cmd, cwd=os.path.join(d, "prj"), env=env, capture_output=True, text=True, timeout=600)
+        p = subprocess.run(cmd, cwd=os.path.join(d, "prj"), env=env, capture_output=True, text=True, timeout=1800)
         rc, err = p.returncode, (p.stdout + p.stderr)[-1500:]
     except subprocess.TimeoutExpired:
         rc, err = 124, "timeout"
@@ -412,7 +413,16 @@ def run(tier, seed, replay):
 def eval_cases(veryl, hbin, cases, scratch):
     lines = [json.dumps({"dir": os.path.join(scratch, "h%d" % i), "files": c["files"], "project": "prj",
                          "include_dependencies": True, "out_dir": c.get("out_dir")}) for i, c in enumerate(cases)]
-    outs = C.run_lines(hbin, lines, args=("paths",), timeout=900, nshards=min(C.NCPU, max(1, len(lines))))
+
+    def one(line):
+        try:
+            p = subprocess.run([hbin, "paths"], input=line + "\n", capture_output=True, text=True, timeout=1800)
+        except subprocess.TimeoutExpired:
+            return "TIMEOUT"
+        o = p.stdout.strip().splitlines()
+        return o[0] if o else "CRASH rc=%d %s" % (p.returncode, (p.stderr.strip().splitlines() or [""])[-1][:300])
+    with ThreadPoolExecutor(max_workers=C.NCPU) as ex:
+        outs = list(ex.map(one, lines))
     pss = [json.loads(o[3:]) if o.startswith("OK ") else {"err": "panic", "msg": o} for o in outs]
     with ThreadPoolExecutor(max_workers=C.NCPU) as ex:
         clis = list(ex.map(lambda ic: run_cli(veryl, ic[1], os.path.join(scratch, "c%d" % ic[0])), enumerate(cases)))
@@ -432,7 +442,7 @@ def _run(res, tier, seed, replay, proved, veryl, hbin, scratch):
         return res.finish()
 
     rng = random.Random(seed * 7907 + 25)
-    n = 40 if tier == "quick" else 600
+    n = N_GENERATED["quick" if tier == "quick" else "thorough"]
     cases = G.c25_corpus()
     have = set(c["tag"] for c in cases)
     cd = os.path.join(C.VERIF, "corpus", PID)
